@@ -5,10 +5,14 @@
    AttributesSubsubsection, ARMAttribute, RISCVAttribute), Model/C20Ehabi.v
    (ehabi/ehabiinfo.py get_entry, arm_expand_prel31; ehabi/decoder.py), over the tables
    of Gen/C20Tables.v regenerated from the live modules.
-   Specifications: Spec/C20Attr.v (IHI 0045, RISC-V psABI), Spec/C20Ehabi.v (IHI 0038). *)
+   Specifications: Spec/C20Attr.v (IHI 0045, RISC-V psABI), Spec/C20Ehabi.v (IHI 0038).
+   Objects under histories of calls: Spec/C20Hist.v (vocabulary, generator objects, stateless
+   reference answers), Model/C20Hist.v (what the section / subsection / sub-subsection /
+   EHABIInfo / decoder objects keep between calls), Proofs/C20Hist.v. *)
 From PV Require Import Base.Bytes Base.Outcome Base.Prim Spec.PrimSpec Model.C20Types
   Gen.C20Tables Spec.C20Attr Spec.C20Ehabi Model.C20Attr Model.C20Ehabi
-  Proofs.C20Attr Proofs.C20Ehabi Gen.PyFuns Proofs.PyFunsC20.
+  Proofs.C20Attr Proofs.C20Ehabi Gen.PyFuns Proofs.PyFunsC20
+  Spec.C20Hist Model.C20Hist Proofs.C20Hist.
 
 (* ======================= build attributes ======================= *)
 
@@ -52,6 +56,44 @@ Theorem C20_attributes_exact : forall fl le pre post l,
   = Ok (expected_section fl l).
 Proof. exact read_attr_section_valid. Qed.
 Print Assumptions C20_attributes_exact.
+
+(* ======================= build attributes: one object, any history of calls ======================= *)
+
+(* The AttributesSection object of a well-formed section anywhere in a file, and every
+   AttributesSubsection / AttributesSubsubsection object it hands out, put through ANY finite
+   history of: starting a walk (iter_subsections / iter_subsubsections / iter_attributes, limited
+   to a vendor / scope / tag or not), next() on any walk started so far, abandoning a walk
+   (close, drop, break), num_*, the list properties, complete fresh walks, and unrelated reads of
+   the same stream in between.  Every answer of the history is the reference answer computed
+   from the stateless decoding [expected_section]: the j-th item of any walk is the j-th encoded
+   item whatever happened in between; counts and lists are complete whatever was abandoned. *)
+Theorem C20_attr_history_exact : forall fl le pre post l h,
+  wf_section fl l = true ->
+  attr_hist (impl_of fl) le (pre ++ enc_section le l ++ post) (zlen pre) (zlen (enc_section le l)) h
+  = Ok (spec_hist (expected_section fl l) h).
+Proof. exact attr_hist_exact. Qed.
+Print Assumptions C20_attr_history_exact.
+
+(* read off the reference: after ANY history h1 (and whatever follows), num_subsections is the
+   number of encoded subsections and .subsections shows every one of them, in order *)
+Theorem C20_attr_num_subsections_any_history : forall fl le pre post l h1 h2,
+  wf_section fl l = true ->
+  exists answers,
+    attr_hist (impl_of fl) le (pre ++ enc_section le l ++ post) (zlen pre) (zlen (enc_section le l))
+              (h1 ++ ONum 0 :: h2) = Ok answers /\
+    nth (List.length h1) answers HBad = HInt (zlen l).
+Proof. exact attr_hist_num_subsections. Qed.
+Print Assumptions C20_attr_num_subsections_any_history.
+
+Theorem C20_attr_subsections_any_history : forall fl le pre post l h1 h2,
+  wf_section fl l = true ->
+  exists answers first,
+    attr_hist (impl_of fl) le (pre ++ enc_section le l ++ post) (zlen pre) (zlen (enc_section le l))
+              (h1 ++ OList 0 :: h2) = Ok answers /\
+    nth (List.length h1) answers HBad
+    = HItems first (map (fun sb => VSubsec (subsec_length sb) (sb_vendor sb)) l).
+Proof. exact attr_hist_subsections. Qed.
+Print Assumptions C20_attr_subsections_any_history.
 
 (* ======================= prel31 ======================= *)
 
@@ -125,6 +167,35 @@ Theorem C20_mnemonic_array_exact : forall r l,
 Proof. exact mnemonic_array_valid. Qed.
 Print Assumptions C20_mnemonic_array_exact.
 
+(* ======================= EHABI: one EHABIInfo object, any history of calls ======================= *)
+
+(* For EVERY file and EVERY history of num_entry / get_entry(n) in any order and repeated,
+   re-reading entry fields, mnmemonic_array() of any entry handed out so far, decoder objects
+   built over an entry's byte-code, decoded again and read again: each answer is the stateless
+   one (the `_num_entry` memo and the decoder's `_index` / `mnemonic_array` are transparent). *)
+Theorem C20_ehabi_history_transparent : forall img le sh_offset sh_size h,
+  eh_hist img le sh_offset sh_size h
+  = eh_spec_hist (num_entry sh_size) (get_entry img le sh_offset sh_size) bc_decode h.
+Proof. exact eh_hist_transparent. Qed.
+Print Assumptions C20_ehabi_history_transparent.
+
+(* hence, at any point of any history, get_entry(n) decodes entry n exactly
+   (C20_entry_kinds_exact lifted to histories) and num_entry() is the number of index entries *)
+Theorem C20_ehabi_get_entry_any_history : forall img le sh_off sh_size n a h1 h2,
+  zlen img < 2 ^ 63 -> 0 <= sh_off -> 0 <= n < sh_size / 8 ->
+  wf_entry (sh_off + n * 8) a = true ->
+  at_ img (sh_off + n * 8) (enc_index le (sh_off + n * 8) a) ->
+  (table_words a <> [] -> at_ img (table_offset a) (enc_table le a)) ->
+  exists r, nth (List.length h1) (eh_hist img le sh_off sh_size (h1 ++ EGet n :: h2)) EABad = EAEntry r /\
+            mask_tbl a r = expected_entry (sh_off + n * 8) a.
+Proof. exact eh_hist_get_exact. Qed.
+Print Assumptions C20_ehabi_get_entry_any_history.
+
+Theorem C20_ehabi_num_entry_any_history : forall img le sh_off sh_size h1 h2,
+  nth (List.length h1) (eh_hist img le sh_off sh_size (h1 ++ ENum :: h2)) EABad = EAInt (sh_size / 8).
+Proof. exact eh_hist_num_exact. Qed.
+Print Assumptions C20_ehabi_num_entry_any_history.
+
 (* ======================= non-vacuity ======================= *)
 Open Scope string_scope.
 Open Scope list_scope.
@@ -168,3 +239,32 @@ Example C20_ex_bytecode :
   bc_decode (enc_insns [IU 300 1; I1 0xb0])
   = Ok [([0xb2; 0xac; 0x82; 0x00], "vsp = vsp + 1716"); ([0xb0], "finish")].
 Proof. vm_compute. auto. Qed.
+
+(* a history on the two-subsection example: a walk abandoned after its first item, then the
+   count; a walk limited to the second vendor; the list of the object it yields; the count again *)
+Example C20_ex_history :
+  let h := [OStart 0 None; ONext 0; OClose 0; ONum 0; OStart 0 (Some [103; 110; 117]); ONext 1; OList 2; ONum 0;
+            ONext 0; ONext 1] in
+  match attr_hist arm_impl false ([9; 9; 9] ++ enc_section false ex_section ++ [7]) 3 (zlen (enc_section false ex_section)) h with
+  | Ok a => a = spec_hist (expected_section ARM ex_section) h /\
+            nth 1 a HBad = HItem (Some 1%nat) (VSubsec 59 [97; 101; 97; 98; 105]) /\
+            nth 3 a HBad = HInt 2 /\
+            nth 5 a HBad = HItem (Some 2%nat) (VSubsec 15 [103; 110; 117]) /\
+            nth 6 a HBad = HItems 3 [VSubsub ("TAG_SYMBOL", OInt 7, XNums [7])] /\
+            nth 7 a HBad = HInt 2 /\ nth 8 a HBad = HStop /\ nth 9 a HBad = HStop
+  | Err _ => False
+  end.
+Proof. vm_compute. repeat split; reflexivity. Qed.
+
+(* one little-endian inline entry (function at place - 8; pop {r4, lr}; finish; finish), asked
+   for twice around num_entry, disassembled through the entry, through a decoder object, through
+   the same decoder decoded again and read again *)
+Example C20_ex_eh_history :
+  let img := int_encode true 4 0x7ffffff8 ++ int_encode true 4 0x80a8b0b0 in
+  let a := eh_hist img true 0 8 [EGet 0; ENum; EGet 0; EMnem 1; EDecoder 0; ERedecode 0; ERead 0; EGet 1] in
+  nth 0 a EABad = EAEntry (mk_entry (2 ^ 64 - 8) (Some 0) (Some [0xa8; 0xb0; 0xb0]) None) /\
+  nth 1 a EABad = EAInt 1 /\ nth 2 a EABad = nth 0 a EABad /\
+  nth 3 a EABad = EAMnem (Some [([0xa8], "pop {r4, lr}"); ([0xb0], "finish"); ([0xb0], "finish")]) /\
+  nth 4 a EABad = nth 3 a EABad /\ nth 5 a EABad = nth 3 a EABad /\ nth 6 a EABad = nth 3 a EABad /\
+  nth 7 a EABad = EAErr (EPy "IndexError").
+Proof. vm_compute. repeat split; reflexivity. Qed.
